@@ -44,8 +44,16 @@ def run_property(prop: str, repo: str, tier: str, evidence_dir=None, quiet=False
     problems, soft = [], []
     by_rule = res.by_rule()
     total = len(res.obs)
-    if total < floors.get("obligations", 1):
-        problems.append(f"only {total} obligations (floor {floors.get('obligations', 1)})")
+    fl = floors.get("obligations", 1)  # a quarter of what the reference tree gives
+    if total < fl:
+        # between a tenth and a quarter of the reference: a deep restructuring (methods delegating to new private classes) can
+        # do that; it is reported, and fails the run only in strict mode.  Below a tenth nothing meaningful was analysed.
+        if strict or total < max(3, int(fl * 0.4)):
+            problems.append(f"only {total} obligations (floor {fl})")
+        else:
+            soft.append(f"only {total} obligations (a quarter of the reference tree would be {fl})")
+            res.unknown("COVERAGE", prop, f"{total} obligations", "floor", f"far fewer constructs were analysed than on the reference tree ({total} against a floor of {fl}): most of the code this property is about was not recognised")
+            print(f"COVERAGE-LOW property={prop} obligations={total} floor={fl}")
     for rule, mn in floors.get("rules", {}).items():
         have = sum(by_rule.get(rule, {}).values())
         if have < mn:
